@@ -312,7 +312,7 @@ MANIFEST = dict(
         "arithmetic over (N, world, rank); numpy/itertools semantics are trusted."),
     level_note="Trusted: python ast, numpy RandomState determinism, itertools.islice. Fields are 'final' if "
                "assigned only in __init__ of the sampler hierarchy and never through another object in the package.",
-    technique="static analysis: effect/purity analysis (RNG sources, final fields), reaching definitions, linear normal forms, partial evaluation per uneven-handling mode, integer evaluation of the dropped size on a grid",
+    technique="static analysis: effect/purity analysis (RNG sources, final fields), reaching definitions, linear normal forms, partial evaluation per uneven-handling mode, integer evaluation of the dropped size on a grid; interpretation of the constructor / rank share / __len__ over the syntax tree at a grid of (mode, process-group state, size) compared with the documented partition table",
     design_ref="DESIGN.md section 4 C13, section 3 G11/G12/G8/G10",
 )
 
